@@ -43,3 +43,54 @@ def c03(ctx, replay):
                          "x role x compression mode x transport chunking; distinct = distinct letter sequences" % n)
     ctx.assumptions += ["TLC and the CommunityModules Json writer", "Go compress/flate as reference DEFLATE codec",
                         "harness frame encoder (ws/rawpeer.go) written from RFC 6455 5.2"]
+
+
+def decoder_model(ctx, mf):
+    """(M) the reference decoder automaton, both with and without permessage-deflate."""
+    base = open(os.path.join(ctx.specdir, "cfg", "WSRecv.mc.cfg")).read().replace("MaxFrames = 3", "MaxFrames = %d" % mf)
+    for fl in ("TRUE", "FALSE"):
+        c2 = ctx.path("recvmc_%s.cfg" % fl)
+        open(c2, "w").write(base.replace("Flate = TRUE", "Flate = %s" % fl))
+        rec, _ = ctx.tlc("WSRecv", c2, name="decoder-automaton-flate-%s" % fl)
+        ctx.count_model(rec)
+
+
+@check("C04")
+def c04(ctx, replay):
+    decoder_model(ctx, 3)
+    n = 3 if ctx.quick() else 4
+    lp = letters(ctx)
+    off, on = ctx.path("c04off.ndjson"), ctx.path("c04on.ndjson")
+    recv_rows(ctx, "c04", n, False, off)
+    recv_rows(ctx, "c04", n, True, on)
+    args = ["-letters", lp, "-rows-off", off, "-rows-on", on, "-seed", ctx.seed]
+    if ctx.quick():
+        args += ["-bufs", "1,512", "-modes-on", "ct", "-chunks", "whole"]
+    else:
+        args += ["-bufs", "1,2,7,512,4096,32768", "-modes-on", "ct,nct", "-chunks", "whole,rand", "-stride", "3"]
+    rep = ctx.drive("cut", args, timeout=7200)
+    ctx.absorb(rep)
+    ctx.extra["exhaustive"] = True
+    ctx.extra["rule"] = ("every valid stream of at most %d frames (fragmented, empty fragments, interleaved ping/pong, compressed) "
+                         "cut at EVERY byte offset 0..len, ended by EOF and by a transport error, x role x read-buffer size x "
+                         "Conn.Reader/Conn.Read; distinct = (stream, frames complete, cut class) triples" % n)
+    ctx.assumptions += ["TLC", "Go compress/flate as reference codec", "harness frame encoder written from RFC 6455 5.2"]
+
+
+@check("C08")
+def c08(ctx, replay):
+    decoder_model(ctx, 3)
+    rows, arows = ctx.path("c08.ndjson"), ctx.path("c08alloc.ndjson")
+    recv_rows(ctx, "c08", 0, True, rows)
+    recv_rows(ctx, "c08alloc", 0, True, arows)
+    args = ["-rows", rows, "-alloc-rows", arows, "-seed", ctx.seed]
+    if ctx.quick():
+        pass
+    rep = ctx.drive("limit", args)
+    ctx.absorb(rep)
+    ctx.extra["exhaustive"] = not ctx.quick()
+    ctx.extra["rule"] = ("limits {-1,0,1,125,4096,32768(default, with and without SetReadLimit),65536} x sizes {L-1,L,L+1,2L+3,40L,7} x 6 "
+                         "fragmentations x compressed/plain, two-message programs changing the limit in between, declared lengths "
+                         "2^31/2^40/2^63-1 and 1 MiB/8 MiB zero bombs (allocation measured sequentially); x role x read buffer {7,4096,70000}; "
+                         "distinct = distinct TLC rows")
+    ctx.assumptions += ["heap use is a measured TotalAlloc delta with 512 KiB fixed slack, not a modelled quantity"]
